@@ -15,6 +15,19 @@ package signer
 //@ spec wireAtt(r *pb.SignBeaconAttestationRequest) bool = r != nil ==> (hastype(r.Id, "*pb.SignBeaconAttestationRequest_PublicKey") ==> unbox(r.Id, "*pb.SignBeaconAttestationRequest_PublicKey") != nil) && (hastype(r.Id, "*pb.SignBeaconAttestationRequest_Account") ==> unbox(r.Id, "*pb.SignBeaconAttestationRequest_Account") != nil) && (r.Domain == nil || cap(r.Domain) >= 4)
 //@ spec wireProp(r *pb.SignBeaconProposalRequest) bool = r != nil ==> (hastype(r.Id, "*pb.SignBeaconProposalRequest_PublicKey") ==> unbox(r.Id, "*pb.SignBeaconProposalRequest_PublicKey") != nil) && (hastype(r.Id, "*pb.SignBeaconProposalRequest_Account") ==> unbox(r.Id, "*pb.SignBeaconProposalRequest_Account") != nil) && (r.Domain == nil || cap(r.Domain) >= 4)
 
+
+// ---- C08 at the wire: the signature in a SUCCEEDED response is valid, under the key of the account the signer service
+// resolves for the request's name/key, for the signing root of exactly the request's fields ----
+//@ spec attAcc(r *pb.SignBeaconAttestationRequest) string = if hastype(r.Id, "*pb.SignBeaconAttestationRequest_Account") then unbox(r.Id, "*pb.SignBeaconAttestationRequest_Account").Account else ""
+//@ spec attKeyOf(r *pb.SignBeaconAttestationRequest) []byte = if hastype(r.Id, "*pb.SignBeaconAttestationRequest_PublicKey") then unbox(r.Id, "*pb.SignBeaconAttestationRequest_PublicKey").PublicKey else nil
+//@ spec propAcc(r *pb.SignBeaconProposalRequest) string = if hastype(r.Id, "*pb.SignBeaconProposalRequest_Account") then unbox(r.Id, "*pb.SignBeaconProposalRequest_Account").Account else ""
+//@ spec propKeyOf(r *pb.SignBeaconProposalRequest) []byte = if hastype(r.Id, "*pb.SignBeaconProposalRequest_PublicKey") then unbox(r.Id, "*pb.SignBeaconProposalRequest_PublicKey").PublicKey else nil
+//@ spec signAcc(r *pb.SignRequest) string = if hastype(r.Id, "*pb.SignRequest_Account") then unbox(r.Id, "*pb.SignRequest_Account").Account else ""
+//@ spec signKeyOf(r *pb.SignRequest) []byte = if hastype(r.Id, "*pb.SignRequest_PublicKey") then unbox(r.Id, "*pb.SignRequest_PublicKey").PublicKey else nil
+//@ spec attRootOfReq(r *pb.SignBeaconAttestationRequest) Bytes = sroot(htrAtt(r.Data.Slot, r.Data.CommitteeIndex, pad32(r.Data.BeaconBlockRoot), r.Data.Source.Epoch, pad32(r.Data.Source.Root), r.Data.Target.Epoch, pad32(r.Data.Target.Root)), bytes(r.Domain))
+//@ spec propRootOfReq(r *pb.SignBeaconProposalRequest) Bytes = sroot(htrHdr(r.Data.Slot, r.Data.ProposerIndex, pad32(r.Data.ParentRoot), pad32(r.Data.StateRoot), pad32(r.Data.BodyRoot)), bytes(r.Domain))
+//@ spec genRootOfReq(r *pb.SignRequest) Bytes = sroot(bytes(r.Data), bytes(r.Domain))
+
 //@ func (*Handler).SignBeaconAttestation
 //@ requires wiredSignerHandler(h)
 //@ requires [wire] wireAtt(req)
@@ -22,6 +35,7 @@ package signer
 //@ modifies tokroot, db, checkedset, deniedset, held, prelocked
 //@ ensures [released] !prelocked && (forall k [48]byte :: !held[k])
 //@ ensures [failclosed] result1 == nil && result0 != nil && ((result0.State == pb.ResponseState_SUCCEEDED) <==> (result0.Signature != nil))
+//@ ensures [exact] result0.State == pb.ResponseState_SUCCEEDED ==> validSig(pkOfAcc(signerFor(h.signer, attAcc(req), attKeyOf(req))), attRootOfReq(req), bytes(result0.Signature))
 // (C08 at the wire) what the signer is asked to sign is what the request carries, field by field
 //@ hint-after before:SignBeaconAttestation@1 [wire-data] data != nil && data.Domain == req.Domain && data.Slot == req.Data.Slot && data.CommitteeIndex == req.Data.CommitteeIndex && data.BeaconBlockRoot == req.Data.BeaconBlockRoot && data.Source != nil && data.Target != nil && data.Source.Epoch == req.Data.Source.Epoch && data.Source.Root == req.Data.Source.Root && data.Target.Epoch == req.Data.Target.Epoch && data.Target.Root == req.Data.Target.Root
 
@@ -32,6 +46,7 @@ package signer
 //@ modifies tokroot, db, checkedset, deniedset, held, prelocked
 //@ ensures [released] !prelocked && (forall k [48]byte :: !held[k])
 //@ ensures [failclosed] result1 == nil && result0 != nil && ((result0.State == pb.ResponseState_SUCCEEDED) <==> (result0.Signature != nil))
+//@ ensures [exact] result0.State == pb.ResponseState_SUCCEEDED ==> validSig(pkOfAcc(signerFor(h.signer, propAcc(req), propKeyOf(req))), propRootOfReq(req), bytes(result0.Signature))
 //@ hint-after before:SignBeaconProposal@1 [wire-data] data != nil && data.Domain == req.Domain && data.Slot == req.Data.Slot && data.ProposerIndex == req.Data.ProposerIndex && data.ParentRoot == req.Data.ParentRoot && data.StateRoot == req.Data.StateRoot && data.BodyRoot == req.Data.BodyRoot
 
 //@ func (*Handler).Sign
@@ -41,6 +56,7 @@ package signer
 //@ modifies tokroot, db, checkedset, deniedset, held, prelocked
 //@ ensures [released] !prelocked && (forall k [48]byte :: !held[k])
 //@ ensures [failclosed] result1 == nil && result0 != nil && ((result0.State == pb.ResponseState_SUCCEEDED) <==> (result0.Signature != nil))
+//@ ensures [exact] result0.State == pb.ResponseState_SUCCEEDED ==> validSig(pkOfAcc(signerFor(h.signer, signAcc(req), signKeyOf(req))), genRootOfReq(req), bytes(result0.Signature))
 //@ hint-after before:SignGeneric@1 [wire-data] data != nil && data.Domain == req.Domain && data.Data == req.Data
 
 // ---- batch endpoints: position by position ----
@@ -53,8 +69,10 @@ package signer
 //@ requires [wire] forall j int :: 0 <= j && j < len(req.Requests) ==> wireSign(req.Requests[j])
 //@ modifies each(j, 0, len(res.Responses), res.Responses[j].State)
 //@ ensures [states] forall j int :: 0 <= j && j < len(res.Responses) ==> res.Responses[j].State == old(res.Responses[j].State) || res.Responses[j].State == pb.ResponseState_DENIED || res.Responses[j].State == pb.ResponseState_FAILED
+//@ ensures [valid] (forall j int :: 0 <= j && j < len(res.Responses) ==> res.Responses[j].State != pb.ResponseState_DENIED && res.Responses[j].State != pb.ResponseState_FAILED) ==> (forall k int :: 0 <= k && k < len(req.Requests) ==> req.Requests[k] != nil)
 //@ loop #1
 //@ invariant [range] 0 <= _n && _n <= len(req.Requests)
+//@ invariant [valid] forall k int :: 0 <= k && k < _n ==> req.Requests[k] != nil
 //@ invariant [same] forall j int :: 0 <= j && j < len(res.Responses) ==> res.Responses[j].State == old(res.Responses[j].State)
 
 //@ func validateSignBeaconAttestationsRequests
@@ -62,8 +80,10 @@ package signer
 //@ requires [wire] forall j int :: 0 <= j && j < len(req.Requests) ==> wireAtt(req.Requests[j])
 //@ modifies each(j, 0, len(res.Responses), res.Responses[j].State)
 //@ ensures [states] forall j int :: 0 <= j && j < len(res.Responses) ==> res.Responses[j].State == old(res.Responses[j].State) || res.Responses[j].State == pb.ResponseState_DENIED || res.Responses[j].State == pb.ResponseState_FAILED
+//@ ensures [valid] (forall j int :: 0 <= j && j < len(res.Responses) ==> res.Responses[j].State != pb.ResponseState_DENIED && res.Responses[j].State != pb.ResponseState_FAILED) ==> (forall k int :: 0 <= k && k < len(req.Requests) ==> req.Requests[k] != nil && req.Requests[k].Data != nil && req.Requests[k].Data.Source != nil && req.Requests[k].Data.Target != nil)
 //@ loop #1
 //@ invariant [range] 0 <= _n && _n <= len(req.Requests)
+//@ invariant [valid] forall k int :: 0 <= k && k < _n ==> req.Requests[k] != nil && req.Requests[k].Data != nil && req.Requests[k].Data.Source != nil && req.Requests[k].Data.Target != nil
 //@ invariant [same] forall j int :: 0 <= j && j < len(res.Responses) ==> res.Responses[j].State == old(res.Responses[j].State)
 
 //@ func (*Handler).Multisign
@@ -74,26 +94,31 @@ package signer
 //@ ensures [released] !prelocked && (forall k [48]byte :: !held[k])
 //@ ensures [shape] result1 == nil && result0 != nil && len(result0.Responses) >= 1 && (forall i int :: 0 <= i && i < len(result0.Responses) ==> result0.Responses[i] != nil)
 //@ ensures [failclosed] forall i int :: 0 <= i && i < len(result0.Responses) ==> ((result0.Responses[i].State == pb.ResponseState_SUCCEEDED) <==> (result0.Responses[i].Signature != nil))
+//@ ensures [exact] forall i int :: 0 <= i && i < len(result0.Responses) && result0.Responses[i].State == pb.ResponseState_SUCCEEDED ==> req != nil && i < len(req.Requests) && validSig(pkOfAcc(signerFor(h.signer, signAcc(req.Requests[i]), signKeyOf(req.Requests[i]))), genRootOfReq(req.Requests[i]), bytes(result0.Responses[i].Signature))
 //@ ensures [oneeach] req != nil && len(req.Requests) > 0 ==> len(result0.Responses) == len(req.Requests)
 //@ hint-after before:Multisign@1 [wire-data] forall j int :: 0 <= j && j < len(req.Requests) ==> reqData[j] != nil && (req.Requests[j] != nil ==> reqData[j].Domain == req.Requests[j].Domain && reqData[j].Data == req.Requests[j].Data)
-//@ hint-after before:Multisign@1 [wire-id] forall j int :: 0 <= j && j < len(req.Requests) ==> (req.Requests[j] != nil ==> accountNames[j] == (if hastype(req.Requests[j].Id, "*pb.SignRequest_Account") then unbox(req.Requests[j].Id, "*pb.SignRequest_Account").Account else "") && (hastype(req.Requests[j].Id, "*pb.SignRequest_PublicKey") ==> pubKeys[j] == unbox(req.Requests[j].Id, "*pb.SignRequest_PublicKey").PublicKey) && (!hastype(req.Requests[j].Id, "*pb.SignRequest_PublicKey") ==> pubKeys[j] == nil))
+//@ hint-after before:Multisign@1 [wire-id] forall j int :: 0 <= j && j < len(req.Requests) ==> (req.Requests[j] != nil ==> accountNames[j] == signAcc(req.Requests[j]) && pubKeys[j] == signKeyOf(req.Requests[j]))
+//@ hint-after Multisign@1 [exact-req] forall i int :: 0 <= i && i < len(result0) && i < len(req.Requests) && result0[i] == core.ResultSucceeded ==> validSig(pkOfAcc(signerFor(h.signer, signAcc(req.Requests[i]), signKeyOf(req.Requests[i]))), genRootOfReq(req.Requests[i]), bytes(result1[i]))
 //@ loop #1
 //@ invariant [range] 0 <= _n && _n <= len(req.Requests) && res != nil && fresh(res) && len(res.Responses) == len(req.Requests) && fresh(res.Responses)
 //@ invariant [made] forall j int :: 0 <= j && j < _n ==> res.Responses[j] != nil && fresh(res.Responses[j]) && allocated(res.Responses[j]) && res.Responses[j].State == pb.ResponseState_UNKNOWN && res.Responses[j].Signature == nil
 //@ invariant [distinct] forall j int, k int :: 0 <= j && j < k && k < _n ==> res.Responses[j] != res.Responses[k]
 //@ loop #2
 //@ invariant [range] 0 <= _n && _n <= len(req.Requests)
+//@ invariant [passed] forall j int :: 0 <= j && j < _n ==> res.Responses[j].State != pb.ResponseState_DENIED && res.Responses[j].State != pb.ResponseState_FAILED
 //@ loop #3
 //@ invariant [range] 0 <= _n && _n <= len(req.Requests) && len(accountNames) == len(req.Requests) && len(pubKeys) == len(req.Requests) && len(reqData) == len(req.Requests) && fresh(accountNames) && fresh(pubKeys) && fresh(reqData)
 //@ invariant [domain] forall j int :: 0 <= j && j < _n ==> reqData[j] != nil && (reqData[j].Domain == nil || cap(reqData[j].Domain) >= 4)
 //@ invariant [rest] forall j int :: _n <= j && j < len(reqData) ==> reqData[j] == nil
-//@ invariant [wire-id] forall j int :: 0 <= j && j < _n ==> (req.Requests[j] != nil ==> accountNames[j] == (if hastype(req.Requests[j].Id, "*pb.SignRequest_Account") then unbox(req.Requests[j].Id, "*pb.SignRequest_Account").Account else "") && (hastype(req.Requests[j].Id, "*pb.SignRequest_PublicKey") ==> pubKeys[j] == unbox(req.Requests[j].Id, "*pb.SignRequest_PublicKey").PublicKey) && (!hastype(req.Requests[j].Id, "*pb.SignRequest_PublicKey") ==> pubKeys[j] == nil))
+//@ invariant [wire-id] forall j int :: 0 <= j && j < _n ==> (req.Requests[j] != nil ==> accountNames[j] == signAcc(req.Requests[j]) && pubKeys[j] == signKeyOf(req.Requests[j]))
 //@ invariant [wire-data] forall j int :: 0 <= j && j < _n ==> fresh(reqData[j]) && allocated(reqData[j]) && (req.Requests[j] != nil ==> reqData[j].Domain == req.Requests[j].Domain && reqData[j].Data == req.Requests[j].Data)
 //@ loop #4
 //@ invariant [range] 0 <= _n && _n <= len(results)
 //@ invariant [resps] len(res.Responses) == len(results) && (forall j int :: 0 <= j && j < len(res.Responses) ==> res.Responses[j] != nil && fresh(res.Responses[j]) && allocated(res.Responses[j])) && (forall j int, k int :: 0 <= j && j < k && k < len(res.Responses) ==> res.Responses[j] != res.Responses[k])
 //@ invariant [frame] unchangedField("pb.SignResponse", "State") && unchangedField("pb.SignResponse", "Signature")
 //@ invariant [done] forall j int :: 0 <= j && j < _n ==> ((res.Responses[j].State == pb.ResponseState_SUCCEEDED) <==> (res.Responses[j].Signature != nil))
+//@ invariant [state-pos] forall j int :: 0 <= j && j < _n && res.Responses[j].State == pb.ResponseState_SUCCEEDED ==> results[j] == core.ResultSucceeded
+//@ invariant [exact] forall j int :: 0 <= j && j < _n && j < len(req.Requests) && res.Responses[j].State == pb.ResponseState_SUCCEEDED ==> validSig(pkOfAcc(signerFor(h.signer, signAcc(req.Requests[j]), signKeyOf(req.Requests[j]))), genRootOfReq(req.Requests[j]), bytes(res.Responses[j].Signature))
 //@ invariant [sig-pos] forall j int :: 0 <= j && j < _n && res.Responses[j].State == pb.ResponseState_SUCCEEDED ==> res.Responses[j].Signature == signatures[j]
 //@ invariant [todo-sig] forall j int :: _n <= j && j < len(res.Responses) ==> res.Responses[j].Signature == nil
 //@ invariant [todo-state] forall j int :: _n <= j && j < len(res.Responses) ==> res.Responses[j].State != pb.ResponseState_SUCCEEDED
@@ -106,26 +131,31 @@ package signer
 //@ ensures [released] !prelocked && (forall k [48]byte :: !held[k])
 //@ ensures [shape] result1 == nil && result0 != nil && len(result0.Responses) >= 1 && (forall i int :: 0 <= i && i < len(result0.Responses) ==> result0.Responses[i] != nil)
 //@ ensures [failclosed] forall i int :: 0 <= i && i < len(result0.Responses) ==> ((result0.Responses[i].State == pb.ResponseState_SUCCEEDED) <==> (result0.Responses[i].Signature != nil))
+//@ ensures [exact] forall i int :: 0 <= i && i < len(result0.Responses) && result0.Responses[i].State == pb.ResponseState_SUCCEEDED ==> req != nil && i < len(req.Requests) && validSig(pkOfAcc(signerFor(h.signer, attAcc(req.Requests[i]), attKeyOf(req.Requests[i]))), attRootOfReq(req.Requests[i]), bytes(result0.Responses[i].Signature))
 //@ ensures [oneeach] req != nil && len(req.Requests) > 0 ==> len(result0.Responses) == len(req.Requests)
 //@ hint-after before:SignBeaconAttestations@1 [wire-data] forall j int :: 0 <= j && j < len(req.Requests) ==> reqData[j] != nil && (req.Requests[j] != nil && req.Requests[j].Data != nil && req.Requests[j].Data.Source != nil && req.Requests[j].Data.Target != nil ==> reqData[j].Domain == req.Requests[j].Domain && reqData[j].Slot == req.Requests[j].Data.Slot && reqData[j].CommitteeIndex == req.Requests[j].Data.CommitteeIndex && reqData[j].BeaconBlockRoot == req.Requests[j].Data.BeaconBlockRoot && reqData[j].Source != nil && reqData[j].Target != nil && reqData[j].Source.Epoch == req.Requests[j].Data.Source.Epoch && reqData[j].Source.Root == req.Requests[j].Data.Source.Root && reqData[j].Target.Epoch == req.Requests[j].Data.Target.Epoch && reqData[j].Target.Root == req.Requests[j].Data.Target.Root)
-//@ hint-after before:SignBeaconAttestations@1 [wire-id] forall j int :: 0 <= j && j < len(req.Requests) ==> (req.Requests[j] != nil ==> accountNames[j] == (if hastype(req.Requests[j].Id, "*pb.SignBeaconAttestationRequest_Account") then unbox(req.Requests[j].Id, "*pb.SignBeaconAttestationRequest_Account").Account else "") && (hastype(req.Requests[j].Id, "*pb.SignBeaconAttestationRequest_PublicKey") ==> pubKeys[j] == unbox(req.Requests[j].Id, "*pb.SignBeaconAttestationRequest_PublicKey").PublicKey) && (!hastype(req.Requests[j].Id, "*pb.SignBeaconAttestationRequest_PublicKey") ==> pubKeys[j] == nil))
+//@ hint-after before:SignBeaconAttestations@1 [wire-id] forall j int :: 0 <= j && j < len(req.Requests) ==> (req.Requests[j] != nil ==> accountNames[j] == attAcc(req.Requests[j]) && pubKeys[j] == attKeyOf(req.Requests[j]))
+//@ hint-after SignBeaconAttestations@1 [exact-req] forall i int :: 0 <= i && i < len(result0) && i < len(req.Requests) && result0[i] == core.ResultSucceeded ==> validSig(pkOfAcc(signerFor(h.signer, attAcc(req.Requests[i]), attKeyOf(req.Requests[i]))), attRootOfReq(req.Requests[i]), bytes(result1[i]))
 //@ loop #1
 //@ invariant [range] 0 <= _n && _n <= len(req.Requests) && res != nil && fresh(res) && len(res.Responses) == len(req.Requests) && fresh(res.Responses)
 //@ invariant [made] forall j int :: 0 <= j && j < _n ==> res.Responses[j] != nil && fresh(res.Responses[j]) && allocated(res.Responses[j]) && res.Responses[j].State == pb.ResponseState_UNKNOWN && res.Responses[j].Signature == nil
 //@ invariant [distinct] forall j int, k int :: 0 <= j && j < k && k < _n ==> res.Responses[j] != res.Responses[k]
 //@ loop #2
 //@ invariant [range] 0 <= _n && _n <= len(req.Requests)
+//@ invariant [passed] forall j int :: 0 <= j && j < _n ==> res.Responses[j].State != pb.ResponseState_DENIED && res.Responses[j].State != pb.ResponseState_FAILED
 //@ loop #3
 //@ invariant [range] 0 <= _n && _n <= len(req.Requests) && len(accountNames) == len(req.Requests) && len(pubKeys) == len(req.Requests) && len(reqData) == len(req.Requests) && fresh(accountNames) && fresh(pubKeys) && fresh(reqData)
 //@ invariant [domain] forall j int :: 0 <= j && j < _n ==> reqData[j] != nil && (reqData[j].Domain == nil || cap(reqData[j].Domain) >= 4)
 //@ invariant [rest] forall j int :: _n <= j && j < len(reqData) ==> reqData[j] == nil
-//@ invariant [wire-id] forall j int :: 0 <= j && j < _n ==> (req.Requests[j] != nil ==> accountNames[j] == (if hastype(req.Requests[j].Id, "*pb.SignBeaconAttestationRequest_Account") then unbox(req.Requests[j].Id, "*pb.SignBeaconAttestationRequest_Account").Account else "") && (hastype(req.Requests[j].Id, "*pb.SignBeaconAttestationRequest_PublicKey") ==> pubKeys[j] == unbox(req.Requests[j].Id, "*pb.SignBeaconAttestationRequest_PublicKey").PublicKey) && (!hastype(req.Requests[j].Id, "*pb.SignBeaconAttestationRequest_PublicKey") ==> pubKeys[j] == nil))
+//@ invariant [wire-id] forall j int :: 0 <= j && j < _n ==> (req.Requests[j] != nil ==> accountNames[j] == attAcc(req.Requests[j]) && pubKeys[j] == attKeyOf(req.Requests[j]))
 //@ invariant [wire-data] forall j int :: 0 <= j && j < _n ==> fresh(reqData[j]) && allocated(reqData[j]) && fresh(reqData[j].Source) && fresh(reqData[j].Target) && allocated(reqData[j].Source) && allocated(reqData[j].Target) && reqData[j] != nil && reqData[j].Source != nil && reqData[j].Target != nil && (req.Requests[j] != nil && req.Requests[j].Data != nil && req.Requests[j].Data.Source != nil && req.Requests[j].Data.Target != nil ==> reqData[j].Domain == req.Requests[j].Domain && reqData[j].Slot == req.Requests[j].Data.Slot && reqData[j].CommitteeIndex == req.Requests[j].Data.CommitteeIndex && reqData[j].BeaconBlockRoot == req.Requests[j].Data.BeaconBlockRoot && reqData[j].Source != nil && reqData[j].Target != nil && reqData[j].Source.Epoch == req.Requests[j].Data.Source.Epoch && reqData[j].Source.Root == req.Requests[j].Data.Source.Root && reqData[j].Target.Epoch == req.Requests[j].Data.Target.Epoch && reqData[j].Target.Root == req.Requests[j].Data.Target.Root)
 //@ loop #4
 //@ invariant [range] 0 <= _n && _n <= len(results)
 //@ invariant [resps] len(res.Responses) == len(results) && (forall j int :: 0 <= j && j < len(res.Responses) ==> res.Responses[j] != nil && fresh(res.Responses[j]) && allocated(res.Responses[j])) && (forall j int, k int :: 0 <= j && j < k && k < len(res.Responses) ==> res.Responses[j] != res.Responses[k])
 //@ invariant [frame] unchangedField("pb.SignResponse", "State") && unchangedField("pb.SignResponse", "Signature")
 //@ invariant [done] forall j int :: 0 <= j && j < _n ==> ((res.Responses[j].State == pb.ResponseState_SUCCEEDED) <==> (res.Responses[j].Signature != nil))
+//@ invariant [state-pos] forall j int :: 0 <= j && j < _n && res.Responses[j].State == pb.ResponseState_SUCCEEDED ==> results[j] == core.ResultSucceeded
+//@ invariant [exact] forall j int :: 0 <= j && j < _n && j < len(req.Requests) && res.Responses[j].State == pb.ResponseState_SUCCEEDED ==> validSig(pkOfAcc(signerFor(h.signer, attAcc(req.Requests[j]), attKeyOf(req.Requests[j]))), attRootOfReq(req.Requests[j]), bytes(res.Responses[j].Signature))
 //@ invariant [sig-pos] forall j int :: 0 <= j && j < _n && res.Responses[j].State == pb.ResponseState_SUCCEEDED ==> res.Responses[j].Signature == signatures[j]
 //@ invariant [todo-sig] forall j int :: _n <= j && j < len(res.Responses) ==> res.Responses[j].Signature == nil
 //@ invariant [todo-state] forall j int :: _n <= j && j < len(res.Responses) ==> res.Responses[j].State != pb.ResponseState_SUCCEEDED
